@@ -1,7 +1,7 @@
 ------------------------------ MODULE MC_Export ------------------------------
 (* Exports spec-defined spaces as ndjson (run by setup; see ../check).
    Every space is an operator WITH a (dummy) parameter: TLC pre-evaluates zero-arity constant definitions at start-up,
-   which would build every space -- including the 97^N vocabulary sequences -- on every export. *)
+   which would build every space -- including the 100^N vocabulary sequences -- on every export. *)
 EXTENDS Gram, Text, ExpandFix, Escape, Options, Spell, Contract, Json, IOUtils, SequencesExt
 
 What == IOEnv.VH_WHAT
